@@ -55,6 +55,11 @@ pub fn gen(a: &Args) -> i32 {
             if x < 30 {
                 writeln!(out, "txn {}", mk_writes(&mut r, &mut vctr)).unwrap();
                 st.bump("op_txn");
+                // the process dies while this commit's record is being written: torn tail, reopen with repair, carry on
+                if r.chance(1, 6) {
+                    writeln!(out, "crashtear {}", r.range(8, 20)).unwrap();
+                    st.bump("op_crashtear");
+                }
             } else if x < 45 {
                 writeln!(out, "txn@{} {}", r.range(1, 9), mk_writes(&mut r, &mut vctr)).unwrap();
                 images += 1;
@@ -262,6 +267,38 @@ pub fn exec(a: &Args) -> i32 {
                     Ok(())
                 }
                 "scanall" => return scan(t).unwrap_or_else(|e| format!("err:{e}")),
+                "crashtear" => {
+                    let cut: u64 = w.get(1).and_then(|s| s.parse().ok()).unwrap_or(1);
+                    let newdir = tempfile::tempdir().expect("tempdir");
+                    copy_dir(dir.path(), newdir.path());
+                    let _ = std::fs::remove_file(newdir.path().join("LOCK"));
+                    // tear the last record: it is the tail of the highest-numbered non-empty segment
+                    let mut segs: Vec<PathBuf> = std::fs::read_dir(newdir.path().join("wal"))
+                        .map(|rd| rd.flatten().map(|e| e.path()).filter(|p| p.extension().map(|x| x == "wal").unwrap_or(false)).collect())
+                        .unwrap_or_default();
+                    segs.sort();
+                    let mut torn = false;
+                    for p in segs.iter().rev() {
+                        let len = std::fs::metadata(p).map(|m| m.len()).unwrap_or(0);
+                        if len > cut {
+                            let f = std::fs::OpenOptions::new().write(true).open(p).expect("open wal");
+                            f.set_len(len - cut).expect("truncate");
+                            torn = true;
+                            break;
+                        }
+                    }
+                    let old = tree.take().unwrap();
+                    let _ = rt.block_on(old.close());
+                    straddled = false;
+                    dir = newdir;
+                    return match TreeBuilder::with_options(mk_opts(dir.path(), o)).build() {
+                        Ok(nt) => {
+                            tree = Some(nt);
+                            if torn { "ok".into() } else { "ok H=nothing-to-tear".into() }
+                        }
+                        Err(e) => format!("err:open:{}", err_name(&e)),
+                    };
+                }
                 "reopen" => {
                     // a clean close flushes everything: the straddled batch is safe from here on
                     straddled = false;
